@@ -115,6 +115,8 @@ fn kinds() -> Vec<KindDef> {
         // buffers, many names sharing an 8-bit HET hash inside one probe run
         KindDef { name: "large-v3-attr-crc32", spec: base(3, Attrs::Crc32, false, files_many(1600, 3)), signed: false, protects: &[], prefix: 0, intact_only: true },
         KindDef { name: "large-v4-attr-full", spec: base(4, Attrs::Full, false, files_many(2600, 4)), signed: false, protects: &[], prefix: 0, intact_only: true },
+        // tables above 64 KiB that are not a multiple of it (block table of 4 500+ entries): digests computed piecewise must still match
+        KindDef { name: "large-v4-digests-4500", spec: base(4, Attrs::None, false, files_many(4500, 7)), signed: false, protects: &[], prefix: 0, intact_only: true },
         // compressed HET/BET tables: the V4 header records the stored (compressed) table sizes and the digests cover exactly those bytes
         KindDef { name: "v4-digests-compressed-tables-60", spec: ArchiveSpec { compress_tables: true, ..base(4, Attrs::None, false, files_many(60, 5)) }, signed: false, protects: &[], prefix: 0, intact_only: true },
         KindDef { name: "v4-digests-compressed-tables-1", spec: ArchiveSpec { compress_tables: true, ..base(4, Attrs::Crc32, false, files_many(1, 6)) }, signed: false, protects: &[], prefix: 0, intact_only: true },
@@ -727,6 +729,18 @@ fn main() {
                 }
             }
         }
+        // a change that keeps the CRC-32 of the bytes it hits: xor with the generator polynomial (33 bits, in the
+        // bit order of the reflected CRC). Where a stored file is raw, its CRC32 attribute cannot see it — an MD5
+        // attribute, a sector checksum or a signature still has to
+        for r in &b.regions {
+            // (not for the kinds whose only content digest is that CRC-32: there the change is undetectable by design)
+            if !k.protects.contains(&r.class) || r.end < r.start + 5 || matches!(k.spec.attrs, Attrs::Crc32) {
+                continue;
+            }
+            for off in (r.start..=r.end - 5).filter(|o| !quick || (o - r.start) % 5 == 0) {
+                faults.push((Fault { kind: k.name.into(), offset: off, xor: vec![0x41, 0x06, 0x71, 0xDB, 0x01], set: vec![] }, r.clone()));
+            }
+        }
         // multi-byte faults
         {
             use rand::Rng;
@@ -755,7 +769,7 @@ fn main() {
         let cases: Vec<serde_json::Value> = faults.iter().map(|(f, _)| serde_json::to_value(f).unwrap()).collect();
         let outs = vcheck::engine::supervise::run_cases(&spec, &cases, engine::WORKERS);
         for ((f, r), o) in faults.iter().zip(outs.iter()) {
-            let shape = if f.xor.len() == 1 { format!("xor{:02x}", f.xor[0]) } else if f.set.iter().all(|x| *x == 0) { "zero-span".into() } else { "overwrite".to_string() };
+            let shape = if f.xor.len() == 1 { format!("xor{:02x}", f.xor[0]) } else if f.xor.len() == 5 { "xor-crc32-generator".to_string() } else if f.set.iter().all(|x| *x == 0) { "zero-span".into() } else { "overwrite".to_string() };
             let nt = matches!(r.class, "file-data" | "sector-offset-table" | "attributes-file" | "signature-file" | "header" | "hash-table" | "block-table" | "het-table" | "bet-table");
             match outcome_to_result(o, f, r.class) {
                 Ok(outcome) => {
